@@ -198,6 +198,22 @@ CHECKS = {
        "targets before reporting an error is not attributed to fp). Floats are not generated (no independent formatting oracle); "
        "either.go's Marshal-only Left/Right are not covered. Struct shapes and values are sampled (seeded).",
   technique="TLA+ codec specification model-checked with TLC; recorded Marshal/Unmarshal observations and decoder fuzz validated by TLC against it"),
+ "C08": dict(
+  text="Derive.tla states the documented resolution precedence (working package, package of the type, derive package) and composes "
+       "field instances one hlist.Cons at a time as eq/ord/hash/monoid.HCons and TupleN do; TLC checks for every choice of field "
+       "instances and every value triple up to 3 fields that the composition is the conjunction of the field equalities, a hash "
+       "respecting it, the lexicographic order in declaration order (lawful, consistent with the equality) and the field-by-field "
+       "monoid with its laws. Seeded scratch packages of types and @fp.Derive directives (Eq, Ord, Hashable, Monoid, Clone; value and "
+       "plain structs, nesting, one/two/phantom type parameters, recursion through pointers, 23 fields, recursive=true, field types "
+       "with overriding instances in the working package / the type's package / both / neither) go through gombok from the working "
+       "tree (twice, byte-identical), go vet + go build with a registry calling every instance by its documented name and arity, and "
+       "a driver comparing each instance with a field-by-field reference written by the harness from the naming rule on 150 value "
+       "triples; overriding instances are semantically distinct and count uses. TLC (TraceDerive) accepts only agreeing laws and "
+       "counters consistent with Derive!Resolve.",
+  note="Trusted: TLC, the Go compiler as judge of 'compiles', the base instances of the typeclass packages (C09-C11, C18 check those). "
+       "Show instances, ImportGiven and js/read example typeclasses are not covered; recursion through bare slices ([]T of the type "
+       "itself) is outside the stated grammar (gombok emits an eagerly recursive instance for it). Shapes are sampled (seeded).",
+  technique="TLA+ composition/resolution specification model-checked with TLC; derived instances compared with field-wise references, events validated by TLC"),
  "C13": dict(
   level="translation_validation",
   text="GenFix.tla states the property as a transition system on the digest tree (a generator pass is a stuttering step, all passes "
